@@ -12,7 +12,7 @@ import (
 func init() {
 	register(&propDef{
 		ID:          "C02",
-		Explanation: "Decides four structural necessary conditions of 'generated Go compiles and renders what the template denotes', for ALL emission paths of the generator (GEM: every function of package generator abstracted to a tree of emissions; loops unrolled 0/1/2; paths rendered with typed placeholders and parsed with go/parser): R1 every path is syntactically valid Go; R2 every string-literal emission is a well-formed interpreted-string body (constants checked with strconv.Unquote, holes must come through escapeQuotes or be html-escaped parser names); R3 expressions owned by a guarded construct (if / else-if / for / switch / case / conditional attribute) are only emitted or collected after the guard's own expression was emitted in the same function; R4 the two void-element tables agree, the void early-return precedes children and close tag, Go comments emit nothing; R5 the literal-coalescing layer closes a pending literal before any Go text; R6 every emission path type-checks (go/types, in process) against the current templ and templ/runtime packages with its holes left as undefined placeholders — a misspelled or removed runtime function, a wrong argument count, an assignment count mismatch or a wrongly typed value in an emitted template is reported; R7 a control-flow writer that receives the node following its own node passes it to every child list it writes (if / else-if / else, for, switch cases), so the last inline child of whichever branch is taken keeps its separation from inline content after the statement; R8 in the spread-attribute renderer every case whose value carries a boolean (bool, *bool, func() bool, KeyValue[…, bool]) writes the attribute only under a condition that has that boolean as a conjunct; R9 the node dispatcher renders a node's trailing whitespace exactly under `inline-or-text(current) && inline-or-text(next)` (same classifier on both); R10 element writers emit open tag, attributes, '>', children and close tag in this order on every path; R11 no emitted `if <expr> {` / `for <expr> {` has an empty body (what the condition guards is emitted inside it). R12 every function of the generator and parser that descends into one of Then / Else / ElseIfs of a conditional node descends into all of them (collectors and emitters of the same node agree on which children exist); R13 the runtime output buffer hands every byte to its bufio.Writer and never writes to the underlying writer without flushing first, and R14 pooled buffers are flushed before they are put back and reset on acquisition or release — both are necessary for the bytes of one render to reach its writer in program order and unmixed with another render's. R15 every element in the block-element table (after which whitespace is dropped) is block-level or hidden in the HTML user-agent style sheet, or a listed exception. R16 (= C15.R10) lazy generation skips a template only when its Go file is strictly newer. R17 (= C13.R1) every emitted template body reads and clears the children slot before rendering, so a child block reaches exactly the component it was passed to. NOT decided: that the emitted constants spell the template's markup (only their order and well-formedness), argument passing, that `go build` accepts arbitrary user expressions.",
+		Explanation: "Decides four structural necessary conditions of 'generated Go compiles and renders what the template denotes', for ALL emission paths of the generator (GEM: every function of package generator abstracted to a tree of emissions; loops unrolled 0/1/2; paths rendered with typed placeholders and parsed with go/parser): R1 every path is syntactically valid Go; R2 every string-literal emission is a well-formed interpreted-string body (constants checked with strconv.Unquote, holes must come through escapeQuotes or be html-escaped parser names); R3 expressions owned by a guarded construct (if / else-if / for / switch / case / conditional attribute) are only emitted or collected after the guard's own expression was emitted in the same function; R4 the two void-element tables agree, the void early-return precedes children and close tag, Go comments emit nothing; R5 the literal-coalescing layer closes a pending literal before any Go text; R6 every emission path type-checks (go/types, in process) against the current templ and templ/runtime packages with its holes left as undefined placeholders — a misspelled or removed runtime function, a wrong argument count, an assignment count mismatch or a wrongly typed value in an emitted template is reported; R7 a control-flow writer that receives the node following its own node passes it to every child list it writes (if / else-if / else, for, switch cases), so the last inline child of whichever branch is taken keeps its separation from inline content after the statement; R8 in the spread-attribute renderer every case whose value carries a boolean (bool, *bool, func() bool, KeyValue[…, bool]) writes the attribute only under a condition that has that boolean as a conjunct; R9 the node dispatcher renders a node's trailing whitespace exactly under `inline-or-text(current) && inline-or-text(next)` (same classifier on both); R10 element writers emit open tag, attributes, '>', children and close tag in this order on every path; R11 no emitted `if <expr> {` / `for <expr> {` has an empty body (what the condition guards is emitted inside it). R12 every function of the generator and parser that descends into one of Then / Else / ElseIfs of a conditional node descends into all of them (collectors and emitters of the same node agree on which children exist); R13 the runtime output buffer hands every byte to its bufio.Writer and never writes to the underlying writer without flushing first, and R14 pooled buffers are flushed before they are put back and reset on acquisition or release — both are necessary for the bytes of one render to reach its writer in program order and unmixed with another render's. R15 every element in the block-element table (after which whitespace is dropped) is block-level or hidden in the HTML user-agent style sheet, or a listed exception. R16 (= C15.R10) lazy generation skips a template only when its Go file is strictly newer. R17 (= C13.R1) every emitted template body reads and clears the children slot before rendering, so a child block reaches exactly the component it was passed to. R18 (= C07.R6) the generator rewrites attribute lists only on a deep copy of the parsed tree (generating twice from one tree, as templ fmt does, gives the same program); R19 the functions reached by the generator's inline/block test read no layout flag (IndentChildren, IndentAttrs, Multiline); R20 the void / block table lookups fold the case of the element name when the parser's name alphabet admits upper-case letters. NOT decided: that the emitted constants spell the template's markup (only their order and well-formedness), argument passing, that `go build` accepts arbitrary user expressions.",
 		Assumptions: []string{"go/parser accepts exactly syntactically valid Go", "placeholders stand for a user expression / identifier of the right syntactic category (searched, ≤5 categories per hole)"},
 		Trusted:     []string{"go/types", "go/parser", "x/tools go/packages", "strconv.Unquote"},
 		Run:         runC02,
@@ -38,6 +38,9 @@ func runC02(c *Ctx) {
 	blockTableMembers(c, "C02.R15")
 	lazySkipIsStrict(c, "C02.R16")
 	gChildrenSlot(c, "C02.R17")
+	deepCopyBeforeMutation(c, "C02.R18")
+	renderClassificationIgnoresLayout(c, "C02.R19")
+	tableLookupsFoldCase(c, "C02.R20")
 }
 
 // guarded child lists: owner type → fields that hold the guarded children
@@ -998,4 +1001,145 @@ func blockTableMembers(c *Ctx, rule string) {
 	}
 	c.count("block_table_entries", n)
 	c.floor(rule, 30)
+}
+
+// renderClassificationIgnoresLayout: C02.R19 — whether the generator keeps the whitespace next to a node depends on
+// what the node IS (its kind and element name), never on how the author laid the source out. The layout flags the
+// parser records for the formatter (IndentChildren, IndentAttrs, Multiline) must not be read by the functions the
+// generator's inline/block test reaches: otherwise the same markup written on one line or on several renders
+// differently (the spaces around an inline element whose children sit on their own lines are dropped).
+func renderClassificationIgnoresLayout(c *Ctx, rule string) {
+	g := c.gem()
+	pp := c.pkg("parser/v2")
+	layout := map[string]bool{"IndentChildren": true, "IndentAttrs": true, "Multiline": true}
+	// roots: generator functions that return bool and take a parser.Node (the inline test)
+	nodeT, _ := pp.Types.Scope().Lookup("Node").(*types.TypeName)
+	var roots []*ast.FuncDecl
+	for _, gf := range g.order {
+		sig, ok := gf.Obj.Type().(*types.Signature)
+		if !ok || sig.Results().Len() != 1 || sig.Results().At(0).Type().String() != "bool" || sig.Params().Len() != 1 {
+			continue
+		}
+		if nodeT != nil && types.Identical(sig.Params().At(0).Type(), nodeT.Type()) {
+			roots = append(roots, gf.Decl)
+		}
+	}
+	if len(roots) == 0 {
+		c.viol(rule, "anchor-lost:inline-test", "", "no func(parser.Node) bool found in the generator")
+		return
+	}
+	// closure over parser methods/functions called
+	pfuncs := map[types.Object]*ast.FuncDecl{}
+	for _, fd := range allFuncDecls(pp) {
+		pfuncs[pp.TypesInfo.Defs[fd.Name]] = fd
+	}
+	type item struct {
+		fd   *ast.FuncDecl
+		info *types.Info
+		via  string
+	}
+	var work []item
+	for _, r := range roots {
+		work = append(work, item{r, g.info, r.Name.Name})
+	}
+	seen := map[*ast.FuncDecl]bool{}
+	n := 0
+	for len(work) > 0 {
+		it := work[0]
+		work = work[1:]
+		if seen[it.fd] {
+			continue
+		}
+		seen[it.fd] = true
+		n++
+		bad := ""
+		ast.Inspect(it.fd.Body, func(x ast.Node) bool {
+			switch x := x.(type) {
+			case *ast.SelectorExpr:
+				if sel, ok := it.info.Selections[x]; ok && sel.Kind() == types.FieldVal && layout[x.Sel.Name] {
+					bad = x.Sel.Name
+				}
+			case *ast.CallExpr:
+				if fn := calleeOf(it.info, x); fn != nil {
+					if pfd, ok := pfuncs[fn]; ok {
+						work = append(work, item{pfd, pp.TypesInfo, it.via + " → " + fn.Name()})
+					}
+					for _, gf := range g.order {
+						if gf.Obj == types.Object(fn) {
+							work = append(work, item{gf.Decl, g.info, it.via + " → " + fn.Name()})
+						}
+					}
+				}
+			}
+			return true
+		})
+		c.check(bad == "", rule, fmt.Sprintf("%s|reads-no-layout-flag", it.via), c.pos(it.fd.Pos()), "decides from the node's kind and name only",
+			fmt.Sprintf("the generator's inline/block test reaches %s, which reads the layout flag %s: whether whitespace next to an element is rendered now depends on how the author broke the lines (an inline element whose children sit on their own lines loses the spaces around it: `read the<a …>terms</a>before`), although the single-line spelling of the same markup keeps them", it.via, bad))
+	}
+	c.count("functions_reached_by_inline_test", n)
+	c.floor(rule, 2)
+}
+
+// tableLookupsFoldCase: C02.R20 — element names may contain upper-case letters (the name alphabet of the parser says
+// which), and HTML element names are case-insensitive; the void / block tables have lower-case keys, so their lookups
+// must fold the case of the name. Otherwise <bR/> is not void and is rendered as <bR></bR>.
+func tableLookupsFoldCase(c *Ctx, rule string) {
+	pp := c.pkg("parser/v2")
+	info := pp.TypesInfo
+	// does the element-name alphabet admit upper-case letters?
+	upper := false
+	for _, f := range pp.Syntax {
+		for _, d := range f.Decls {
+			gd, ok := d.(*ast.GenDecl)
+			if !ok || gd.Tok != token.VAR {
+				continue
+			}
+			for _, sp := range gd.Specs {
+				vs := sp.(*ast.ValueSpec)
+				for i, nm := range vs.Names {
+					if i < len(vs.Values) && strings.HasPrefix(nm.Name, "elementName") {
+						if s, isC := constString(info, vs.Values[i]); isC && strings.ToLower(s) != s {
+							upper = true
+						}
+					}
+				}
+			}
+		}
+	}
+	n := 0
+	for _, fd := range allFuncDecls(pp) {
+		ast.Inspect(fd.Body, func(x ast.Node) bool {
+			ix, ok := x.(*ast.IndexExpr)
+			if !ok {
+				return true
+			}
+			id, ok := ast.Unparen(ix.X).(*ast.Ident)
+			if !ok {
+				return true
+			}
+			v, ok := info.ObjectOf(id).(*types.Var)
+			if !ok || v.Parent() != pp.Types.Scope() {
+				return true
+			}
+			mt, ok := v.Type().Underlying().(*types.Map)
+			if !ok || mt.Key().String() != "string" || !strings.HasSuffix(id.Name, "Elements") {
+				return true
+			}
+			n++
+			folds := false
+			ast.Inspect(ix.Index, func(y ast.Node) bool {
+				if call, ok := y.(*ast.CallExpr); ok {
+					if fn := calleeOf(info, call); fn != nil && fullName(fn) == "strings.ToLower" {
+						folds = true
+					}
+				}
+				return true
+			})
+			c.check(folds || !upper, rule, fmt.Sprintf("%s|%s[…]|lookup-folds-case", funcKey(pp, fd), id.Name), c.pos(ix.Pos()), "the table is consulted with the lower-cased name (or names cannot contain upper-case letters)",
+				fmt.Sprintf("%s looks the element name up in %s as written, but the parser's name alphabet admits upper-case letters and the table's keys are lower-case: <bR/> or <IMG/> is not recognised as a void element and is rendered with an end tag (<bR></bR>), and a block element written <DIV> is treated as inline", fd.Name.Name, id.Name))
+			return true
+		})
+	}
+	c.count("element_table_lookups", n)
+	c.floor(rule, 2)
 }
